@@ -261,6 +261,7 @@ def run(tier, rep):
         for e in t2['ev']:
             if e['u'] == [1]:
                 e['u'] = [2]
+                e['alts'] = [[e['i'], [2], e['ji']]]
                 return True
     def set_re(t2):
         for e in t2['ev']:
@@ -274,6 +275,7 @@ def run(tier, rep):
         for e in t2['ev']:
             if e['c'] == [1]:
                 e['c'], e['u'] = [1, 2], e['u'] * 2
+                e['alts'] = [[a[0], a[1] * 2, a[2]] for a in e['alts']]
                 return True
     def drop_pair(t2):
         for j, e in enumerate(t2['ev']):
